@@ -57,6 +57,11 @@ pub fn install_panic_hook(print: bool) {
     }));
 }
 
+/// Message and location of the last panic of the calling thread (set by the panic hook).
+pub fn last_panic() -> Option<(String, String)> {
+    LAST_PANIC.with(|p| p.borrow().clone())
+}
+
 /// What running one stream produced.
 pub enum Ran {
     Ok,
@@ -755,7 +760,24 @@ pub fn supervise(spec: &Spec, tier: Tier, seed: u64) -> i32 {
             confirmed.push((p, m));
             continue;
         }
-        let (desc, bad, timed_out) = confirm_in_child(spec, tier, &p, (spec.watchdog_s * 2).max(120));
+        let (mut desc, mut bad, mut timed_out) = confirm_in_child(spec, tier, &p, (spec.watchdog_s * 2).max(120));
+        if spec.scheduling_dependent {
+            let mut tries = 1;
+            while !(bad || timed_out) && tries < 6 {
+                let r = confirm_in_child(spec, tier, &p, (spec.watchdog_s * 2).max(120));
+                desc = r.0;
+                bad = r.1;
+                timed_out = r.2;
+                tries += 1;
+            }
+            if !(bad || timed_out) {
+                // the oracle of such a property compares two runs of the same deterministic
+                // jobs: one observed difference is a difference, whether or not the scheduler
+                // produces it again
+                confirmed.push((p, format!("{} [observed once; {} isolated re-runs of the same batch did not fail again: scheduling dependent]", m, tries)));
+                continue;
+            }
+        }
         if bad || (timed_out && spec.hang_is_violation) {
             confirmed.push((p, m));
         } else {
